@@ -79,6 +79,9 @@ type Spec struct {
 	// Hold: jobs (keys) that begin but do not end before the restart: they are still
 	// running when mrp exits and die with it
 	Hold []string `json:"hold"`
+	// Bare: stage code writes the files its outputs name and nothing else (no unreferenced
+	// files, nothing in the temporary directory): a fork may then have nothing to reclaim
+	Bare bool `json:"bare"`
 	// PostTwice: mrp is killed after post-processing has moved the files and before it has
 	// rewritten the outputs record; the restarted mrp post-processes again
 	PostTwice bool `json:"post_twice"`
@@ -729,12 +732,14 @@ func (d *Driver) writeFiles(j *job, outs interface{}) interface{} {
 			writeFile(path.Join(p, "x", "deep.dat"), []byte("below x of "+f.Key()+"\n"))
 		} else {
 			writeFile(p, fileContent(f.Key()))
-			// an unreferenced file whose name extends the output's name
-			sib := p + ".idx"
-			writeFile(sib, []byte("index of "+f.Key()+"\n"))
-			d.fmu.Lock()
-			d.extras[j.key+"##"+f.Name] = canon(sib)
-			d.fmu.Unlock()
+			if !d.spec.Bare {
+				// an unreferenced file whose name extends the output's name
+				sib := p + ".idx"
+				writeFile(sib, []byte("index of "+f.Key()+"\n"))
+				d.fmu.Lock()
+				d.extras[j.key+"##"+f.Name] = canon(sib)
+				d.fmu.Unlock()
+			}
 		}
 		d.fmu.Lock()
 		d.filePath[f.Key()] = canon(p)
@@ -742,11 +747,13 @@ func (d *Driver) writeFiles(j *job, outs interface{}) interface{} {
 		d.fmu.Unlock()
 		d.tr.Emit("FileWritten", "job", j.key, "file", f.Key(), "path", d.rel(p))
 	}
-	ex := path.Join(j.vj.FilesPath, "extra.dat")
-	writeFile(ex, []byte("unreferenced file of "+j.key+"\n"))
-	d.fmu.Lock()
-	d.extras[j.key] = canon(ex)
-	d.fmu.Unlock()
+	if !d.spec.Bare {
+		ex := path.Join(j.vj.FilesPath, "extra.dat")
+		writeFile(ex, []byte("unreferenced file of "+j.key+"\n"))
+		d.fmu.Lock()
+		d.extras[j.key] = canon(ex)
+		d.fmu.Unlock()
+	}
 	return Resolve(outs, d.resolve)
 }
 
@@ -856,12 +863,14 @@ func (d *Driver) begin(j *job) {
 			pc, _ := Untag(j.inv.Couts)
 			missing = append(missing, d.checkFiles(pc)...)
 		}
-		tmp := path.Join(j.vj.MetadataPath, "tmp")
-		os.MkdirAll(tmp, 0755)
-		writeFile(path.Join(tmp, "scratch.dat"), []byte("temporary file of "+j.key+"\n"))
-		d.fmu.Lock()
-		d.tmps[j.key] = path.Join(tmp, "scratch.dat")
-		d.fmu.Unlock()
+		if !d.spec.Bare {
+			tmp := path.Join(j.vj.MetadataPath, "tmp")
+			os.MkdirAll(tmp, 0755)
+			writeFile(path.Join(tmp, "scratch.dat"), []byte("temporary file of "+j.key+"\n"))
+			d.fmu.Lock()
+			d.tmps[j.key] = path.Join(tmp, "scratch.dat")
+			d.fmu.Unlock()
+		}
 	}
 	d.tr.Emit("StageBegin", "job", j.key, "known", j.inv != nil, "argsOk", argsOk, "attempt", j.attempt,
 		"missing", missing)
